@@ -385,7 +385,7 @@ func (a chainAdapter[I, O]) appendLambda(l *compose.Lambda, opts ...compose.Grap
 func (a chainAdapter[I, O]) appendGraph(g compose.AnyGraph, opts ...compose.GraphAddNodeOpt) {
 	a.c.AppendGraph(g, opts...)
 }
-func (a chainAdapter[I, O]) appendParallel(p *compose.Parallel) { a.c.AppendParallel(p) }
+func (a chainAdapter[I, O]) appendParallel(p *compose.Parallel)  { a.c.AppendParallel(p) }
 func (a chainAdapter[I, O]) appendBranch(b *compose.ChainBranch) { a.c.AppendBranch(b) }
 
 func lowerChain(c chainAPI, s *tspec, env *tenv) error {
